@@ -56,6 +56,15 @@ def run(rep, tier):
         rep.rule('R6', '"the sequence of procedure entries in a trace equals the call sequence of the source": every call statement generates a '
                  'transfer of control to its callee, whatever the callee\'s body is (import of C01-R15, call-statement instances)', floor=2)
         c01.rule_variable_slots(_report.Import(rep, 'R6', 'C01', key_filter=lambda r, k: k.startswith('call statement')), cast.load('xcmp.cpp'))
+    def rule_calls_not_folded(rep):
+        """Expression side of "the sequence of procedure entries in a trace equals the call sequence of the source": constant folding and
+        the expression optimiser never delete a call that X evaluates (import of C07-R8, instances with a call operand)."""
+        from . import c07
+        from .. import report as _report
+        rep.rule('R9', 'no call that the source evaluates is removed at compile time: folding an operator with one constant operand keeps a '
+                 'call in the other operand (f(x) and 0, 0 and f(x), ...), so the trace shows its entry (import of C07-R8, call instances)', floor=4)
+        c07.rule_fold_effects(_report.Import(rep, 'R9', 'C07', key_filter=lambda r, k: 'call' in k), cast.load('xcmp.cpp'))
+
     def rule_every_proc_listed(rep):
         """Compiler side of "the symbol table lists every procedure and function of the program once": code generation for a Proc node
         reaches the prologue directive (which lowering turns into the PROC / FUNC directive the assembler records) on every path."""
@@ -78,7 +87,7 @@ def run(rep, tier):
                any(callee_of(c)[1] in ('genProc', 'genFunc') for c in cast.calls_in(g.body))]
         rep.add('R7', 'LowerDirectives:prologue-to-PROC/FUNC', bool(low), low[0].qname if low else 'xcmp::LowerDirectives',
                 'lowering emits genProc / genFunc' if low else 'no genProc / genFunc in LowerDirectives', nontrivial=False)
-    for fn, a in ((rule_calls_not_elided, (rep,)), (rule_every_proc_listed, (rep,)), (rule_prefix, (rep, idx)), (rule_format, (rep, idx)), (rule_symbols, (rep,)), (rule_lookup, (rep, idx)), (rule_symbol_offset, (rep, idx)), (rule_loader_keeps, (rep, idx))):
+    for fn, a in ((rule_calls_not_elided, (rep,)), (rule_calls_not_folded, (rep,)), (rule_every_proc_listed, (rep,)), (rule_prefix, (rep, idx)), (rule_format, (rep, idx)), (rule_symbols, (rep,)), (rule_lookup, (rep, idx)), (rule_symbol_offset, (rep, idx)), (rule_loader_keeps, (rep, idx))):
         try:
             fn(*a)
         except AnalysisBroken as e:
